@@ -1,4 +1,4 @@
-//go:build verif
+//go:build verif && verif_c10wb
 
 package compose
 
@@ -11,6 +11,12 @@ import (
 
 // Re-exports for the external harness module of the verification framework (/verif,
 // property C10): internal/callbacks cannot be imported from outside this module.
+//
+// This file and internal/callbacks/verif_c10.go name unexported identifiers (initNodeCallbacks,
+// initGraphCallbacks, nodeInfo; manager, ctxWithManager, managerFromCtx): they are the white-box group
+// of C10 (build tags verif && verif_c10wb). Only the C10 harness asks for the sub-tag, and it can be
+// built without it, so a rename these files do not follow cannot stop the other properties' harnesses
+// (built with -tags verif) from compiling.
 
 // VerifC10CtxWithManager see internal/callbacks.VerifC10CtxWithManager.
 func VerifC10CtxWithManager(ctx context.Context, info *callbacks.RunInfo, hs []callbacks.Handler, global []callbacks.Handler) context.Context {
